@@ -4,7 +4,7 @@
    _MIR_get_ff_call, machinize_call, target_machinize with fixes C05-1..3 applied; the pinned
    commit's loops are the *_head definitions, refuted below). *)
 From Coq Require Import List ZArith.
-From MirV Require Import Base.W64 C05.SysV C05.AbiImpl C05.AbiProofs C05.Conv C05.ConvProofs gen.C05Abi.
+From MirV Require Import Base.W64 C05.SysV C05.AbiImpl C05.AbiProofs C05.Conv C05.ConvProofs C05.BlkMov gen.C05Abi.
 Import ListNotations.
 Local Open Scope Z_scope.
 
@@ -106,11 +106,13 @@ Theorem conversion_ignores_upper_bits : forall t v w, v mod 2 ^ ity_bits t = w m
 Proof. intros t v w H; split; exact (narrow_low_bits t v w H). Qed.
 Print Assumptions conversion_ignores_upper_bits.
 
-(* every integer argument is narrowed to its prototype type and extended before it is placed:
+(* every integer argument reaches the callee converted to its prototype type in the bytes the ABI
+   makes observable (4 for the narrow types -- the de-facto 32-bit extension --, 8 otherwise):
    generated code (get_ext_code) and interpreter (argument switch of call()) *)
-Theorem arguments_narrowed_per_prototype : forall t v,
-  ext_sem (gen_ext_code t) v = Some (narrow t v) /\ cast_sem (interp_call_arg t) v = Some (narrow t v).
-Proof. intros t v; split; [exact (gen_ext_is_narrow t v)|exact (interp_arg_is_narrow t v)]. Qed.
+Theorem arguments_narrowed_per_prototype : forall t v, exists w w',
+  ext_sem (gen_ext_code t) v = Some w /\ cast_sem (interp_call_arg t) v = Some w'
+  /\ low_eq (8 * obs_bytes t) w (narrow t v) /\ low_eq (8 * obs_bytes t) w' (narrow t v).
+Proof. exact args_observable. Qed.
 Print Assumptions arguments_narrowed_per_prototype.
 
 (* GPR n / SSE n of the assignment theorems are the psABI's registers: the register tables of
@@ -129,6 +131,18 @@ Example results_extended_example :
   received (fun t v => ext_sem (gen_ext_code t) v) [RInt I8; RD; RInt U16] [0x1234567890abcd80; 77; 0xffffffffffff8001]
   = [Some 0xffffffffffffff80; Some 77; Some 0x8001].
 Proof. reflexivity. Qed.
+
+(* the copy loop of the interpreter trampoline for a stack-passed block (gen_blk_mov), emitted only for
+   blocks of at least one eightbyte (fixes/C05-6.patch), copies exactly the eightbytes 0..qwords-1 of
+   the block -- nothing for an empty block; without the guard an empty block copies index -1, i.e.
+   overwrites the preceding stack argument (replayed by ./check C05: `i64 x7, blk:0` via interp) *)
+Theorem block_copy_loop_exact : forall q, 0 <= q -> ff_blk_copy true q = Some (zrange (Z.to_nat q)).
+Proof. exact ff_blk_copy_exact. Qed.
+Print Assumptions block_copy_loop_exact.
+
+Theorem block_copy_size0_head_refuted : exists q, 0 <= q /\ ff_blk_copy false q <> Some (zrange (Z.to_nat q)).
+Proof. exists 0. split; [apply Z.le_refl|]. rewrite ff_blk_copy_size0_head. discriminate. Qed.
+Print Assumptions block_copy_size0_head_refuted.
 
 (* The loops of the pinned commit (before fixes C05-1..3) do NOT satisfy the theorems above:
    witnesses, replayed by ./check C05 on the real code. *)
